@@ -22,6 +22,9 @@ type msgSpec struct {
 	// BodySize > 0: the body is about that many bytes of CRLF-terminated lines (real-client
 	// cases: large enough that the client is still streaming when the server aborts mid-DATA).
 	BodySize int
+	// Ehlo != "": the message carries connection metadata as a message received over SMTP does
+	// (MsgMetadata.Conn with the client's EHLO name, which no endpoint validates); "" = Conn nil.
+	Ehlo string
 }
 
 // distinct returns the distinct recipient strings in first-occurrence order.
